@@ -320,6 +320,26 @@ def run(chk):
     r2(chk, prog)
     chk.rule('R4', 'the open value list survives chunk boundaries (file lines, environment, argv)', 3)
     r4_pairing_state_survives_chunks(chk, prog)
+    # R5: every line of an argument file is evaluated - also a last line without a terminating newline: the loop
+    # runs its body exactly when the read delivered a line (condition == success of the read)
+    from ..rules import stream_read_in, stream_loop_condition, loops_in
+    chk.rule('R5', 'every line of an argument file is evaluated (the read loop runs for every line delivered)', 1)
+    rf = prog.one('celma::prog_args::Handler', 'readArgumentFile')
+    n5 = 0
+    for loop in loops_in(rf):
+        kids = loop.get('c', [])
+        cond = kids[-2] if loop.get('k') == 'WhileStmt' else None
+        if not isinstance(cond, dict) or stream_read_in(cond) is None:
+            continue
+        n5 += 1
+        v = stream_loop_condition(cond)
+        chk.check(v == 'success', 'R5', rf.name, 'the line loop runs for every line the read delivers, including an '
+                  'unterminated last line', rf.loc(loop),
+                  {'eof': "the condition is !eof(): a last line without newline sets eofbit while it is delivered and "
+                          "is silently dropped",
+                   'good': 'the condition is good(): a last line without newline sets eofbit and is dropped',
+                   'other': 'the condition is not the success of the read'}.get(v, ''))
+    chk.require(n5 >= 1, 'readArgumentFile: line loop not found')
     # R3: read-mode flags (C03-R3) and argv capacity (C04-R3)
     sub = type(chk)(chk.pid, chk.tier)
     sub._known = []
